@@ -18,7 +18,6 @@ import (
 	"strconv"
 	"strings"
 	"testing"
-	"testing/synctest"
 	"time"
 
 	"github.com/go-spatial/geom"
@@ -104,9 +103,21 @@ func genVal(r *simrt.RNG, typ string, notnull bool, row int) gpkgh.Val {
 	}
 	switch typ {
 	case "INTEGER", "MEDIUMINT", "INT":
+		if r.Chance(0.1) {
+			return gpkgh.IntVal(int64(r.Uint64()>>2) - (1 << 61)) // beyond 2^53
+		}
 		return gpkgh.IntVal(int64(r.Uint64()%2000001) - 1000000)
 	case "REAL", "DOUBLE", "FLOAT":
+		if r.Chance(0.15) {
+			return gpkgh.FloatVal(float64(int64(r.Uint64()%2001) - 1000)) // a whole number stays REAL
+		}
 		return gpkgh.FloatVal(float64(int64(r.Uint64()%2000001)-1000000) / 128)
+	}
+	switch r.Intn(12) {
+	case 0:
+		return gpkgh.TextVal("")
+	case 1:
+		return gpkgh.TextVal(strconv.Itoa(r.Intn(100000)))
 	}
 	return gpkgh.TextVal(fmt.Sprintf("t%d-%x", row, r.Uint64()%65536))
 }
@@ -200,16 +211,22 @@ func genWork(seed uint64) (gwork, simrt.FaultPlan, simrt.MapPolicy, uint64) {
 	pk := gpkgh.Column{Name: ident(r, used), Type: "INTEGER", PK: true, NotNull: r.Chance(0.5)}
 	var attrs []gpkgh.Column
 	for i, n := 0, r.Intn(5); i < n; i++ {
-		typ := []string{"INTEGER", "REAL", "TEXT", "DOUBLE", "MEDIUMINT", "TEXT(20)"}[r.Intn(6)]
+		typ := []string{"INTEGER", "REAL", "TEXT", "DOUBLE", "MEDIUMINT", "TEXT(20)", "Integer", "text", "Real"}[r.Intn(9)]
 		attrs = append(attrs, gpkgh.Column{Name: ident(r, used), Type: typ, NotNull: r.Chance(0.3)})
 	}
-	gcol := gpkgh.Column{Name: t.GeomCol, Type: t.GeomType}
-	// geometry column anywhere after the primary key
-	pos := r.Intn(len(attrs) + 1)
-	t.Columns = append(t.Columns, pk)
-	t.Columns = append(t.Columns, attrs[:pos]...)
+	geomNotNull := r.Chance(0.3)
+	gcol := gpkgh.Column{Name: t.GeomCol, Type: t.GeomType, NotNull: geomNotNull}
+	// the primary key is usually first, not always; the geometry column anywhere
+	cols := append([]gpkgh.Column{pk}, attrs...)
+	if len(attrs) > 0 && r.Chance(0.25) {
+		k := 1 + r.Intn(len(attrs))
+		cols[0], cols[k] = cols[k], cols[0]
+	}
+	pos := r.Intn(len(cols) + 1)
+	t.Columns = append(t.Columns, cols[:pos]...)
 	t.Columns = append(t.Columns, gcol)
-	t.Columns = append(t.Columns, attrs[pos:]...)
+	t.Columns = append(t.Columns, cols[pos:]...)
+	nullGeoms := !geomNotNull && r.Chance(0.3)
 
 	p := 1 + r.Intn(40)
 	if r.Chance(0.25) {
@@ -255,10 +272,13 @@ func genWork(seed uint64) (gwork, simrt.FaultPlan, simrt.MapPolicy, uint64) {
 				fid += int64(1 + r.Intn(3))
 				continue
 			}
-			row.Vals = append(row.Vals, genVal(r, strings.Split(col.Type, "(")[0], col.NotNull, i))
+			row.Vals = append(row.Vals, genVal(r, strings.ToUpper(strings.Split(col.Type, "(")[0]), col.NotNull, i))
 		}
 		row.Geom = genGeom(r, t.GeomType, true, base)
-		if allEmptyPage && t.GeomType != gpkgh.TPoint && i < p {
+		if nullGeoms && r.Chance(0.2) {
+			row.Geom = nil // a feature without geometry
+		}
+		if allEmptyPage && t.GeomType != gpkgh.TPoint && i < p && row.Geom != nil {
 			row.Geom = genGeom(simrt.NewRNG(1, "e"), t.GeomType, false, 0)
 			switch t.GeomType {
 			case gpkgh.TLineString, gpkgh.TMultiPoint:
@@ -273,7 +293,11 @@ func genWork(seed uint64) (gwork, simrt.FaultPlan, simrt.MapPolicy, uint64) {
 		}
 		// polygon parts get a unique first vertex, so that the pipeline-mode snap stub can
 		// tell which (row, part) it is asked about
-		switch row.Geom.T {
+		gt := ""
+		if row.Geom != nil {
+			gt = row.Geom.T
+		}
+		switch gt {
 		case gpkgh.TPolygon:
 			if len(row.Geom.L) > 0 && len(row.Geom.L[0]) > 0 {
 				row.Geom.L[0][0] = [2]float64{base + float64(i*8)*2, base/2 + 0.5}
@@ -331,6 +355,9 @@ func featOf(row gpkgh.Row, spare bool) *feat {
 			cols = append(cols, v.Go())
 		}
 	}
+	if row.Geom == nil {
+		return &feat{cols: cols, g: nil}
+	}
 	return &feat{cols: cols, g: row.Geom.ToGeom()}
 }
 
@@ -365,8 +392,8 @@ func expectedFor(w *gwork, tm int, pipeline bool) *gpkgh.ExpTable {
 	t := &w.Table
 	e := &gpkgh.ExpTable{Name: t.Name, Columns: t.Columns, GeomCol: t.GeomCol, GeomType: t.GeomType, SRSID: t.SRSID}
 	for i, row := range t.Rows {
-		er := gpkgh.ExpRow{Vals: row.Vals, Geom: row.Geom, Label: fmt.Sprintf("feature %d", i)}
-		if pipeline && (row.Geom.T == gpkgh.TPolygon || row.Geom.T == gpkgh.TMultiPolygon) {
+		er := gpkgh.ExpRow{Vals: row.Vals, Geom: row.Geom, NullGeom: row.Geom == nil, Label: fmt.Sprintf("feature %d", i)}
+		if pipeline && row.Geom != nil && (row.Geom.T == gpkgh.TPolygon || row.Geom.T == gpkgh.TMultiPolygon) {
 			// through the pipeline: per part, kept (shifted) or dropped for this tile matrix
 			var polys [][][][2]float64
 			switch row.Geom.T {
@@ -400,6 +427,7 @@ type runResult struct {
 }
 
 var tapeSink func(uint32)
+var onFatal func(v *simh.Violation)
 
 func runOne(t *testing.T, w *gwork, fp simrt.FaultPlan, mp simrt.MapPolicy, mapSeed, seed uint64, tape []uint32, replay, trace bool, dir string) (rr runResult) {
 	rr.probes = simh.Counter{}
@@ -428,87 +456,84 @@ func runOne(t *testing.T, w *gwork, fp simrt.FaultPlan, mp simrt.MapPolicy, mapS
 		feats = append(feats, featOf(row, w.SpareCap))
 	}
 	simrt.SetMapOrder(mp, mapSeed)
-	leak := ""
-	func() {
-		defer func() {
-			if r := recover(); r != nil {
-				leak = fmt.Sprint(r)
+	opt := simrt.Options{Seed: seed, Faults: fp, Tape: tape, Replay: replay, Trace: trace, TapeSink: tapeSink, MaxSteps: 2000 + 400*(len(feats)+2)*(len(ids)+1)}
+	var leak string
+	rr.sim, leak = simh.RunBubble(t, opt, func() {
+		source := gpkg.SourceGeopackage{}
+		source.Init(srcPath)
+		tables := source.GetTableInfo()
+		source.Close()
+		if len(tables) != 1 {
+			panic(fmt.Sprintf("gpkgsim: source reports %d tables", len(tables)))
+		}
+		targets := map[int]*gpkg.TargetGeopackage{}
+		for _, id := range ids {
+			tg := &gpkg.TargetGeopackage{}
+			tg.Init(paths[id], w.PageSize)
+			if err := tg.CreateTables(tables); err != nil {
+				panic(fmt.Sprintf("gpkgsim: CreateTables: %v", err))
 			}
-		}()
-		synctest.Test(t, func(t *testing.T) {
-			s := simrt.New(simrt.Options{Seed: seed, Faults: fp, Tape: tape, Replay: replay, Trace: trace, TapeSink: tapeSink, MaxSteps: 2000 + 400*(len(feats)+2)*(len(ids)+1),
-				WaitQuiescent: synctest.Wait, SleepFake: func(d time.Duration) { time.Sleep(d) }})
-			rr.sim = s.Run(func() {
-				source := gpkg.SourceGeopackage{}
-				source.Init(srcPath)
-				tables := source.GetTableInfo()
-				source.Close()
-				if len(tables) != 1 {
-					panic(fmt.Sprintf("gpkgsim: source reports %d tables", len(tables)))
+			tg.Table = tables[0]
+			targets[id] = tg
+		}
+		if !pipeline {
+			ch := make(chan processing.Feature)
+			go (&simSource{feats: feats}).ReadFeatures(ch)
+			targets[0].WriteFeatures(ch)
+		} else {
+			pt := map[int]processing.Target{}
+			for id, tg := range targets {
+				pt[id] = tg
+			}
+			rowIdx := map[*feat]int{}
+			for i, f := range feats {
+				rowIdx[f] = i
+			}
+			// the snap stub needs to know which row a polygon belongs to: rows carry
+			// distinct coordinates, so look the polygon up by its first vertex
+			byFirst := map[[2]float64][2]int{}
+			for i, row := range w.Table.Rows {
+				if row.Geom == nil {
+					continue
 				}
-				targets := map[int]*gpkg.TargetGeopackage{}
-				for _, id := range ids {
-					tg := &gpkg.TargetGeopackage{}
-					tg.Init(paths[id], w.PageSize)
-					if err := tg.CreateTables(tables); err != nil {
-						panic(fmt.Sprintf("gpkgsim: CreateTables: %v", err))
+				switch row.Geom.T {
+				case gpkgh.TPolygon:
+					if len(row.Geom.L) > 0 && len(row.Geom.L[0]) > 0 {
+						byFirst[row.Geom.L[0][0]] = [2]int{i, 0}
 					}
-					tg.Table = tables[0]
-					targets[id] = tg
-				}
-				if !pipeline {
-					ch := make(chan processing.Feature)
-					go (&simSource{feats: feats}).ReadFeatures(ch)
-					targets[0].WriteFeatures(ch)
-				} else {
-					pt := map[int]processing.Target{}
-					for id, tg := range targets {
-						pt[id] = tg
-					}
-					rowIdx := map[*feat]int{}
-					for i, f := range feats {
-						rowIdx[f] = i
-					}
-					// the snap stub needs to know which row a polygon belongs to: rows carry
-					// distinct coordinates, so look the polygon up by its first vertex
-					byFirst := map[[2]float64][2]int{}
-					for i, row := range w.Table.Rows {
-						switch row.Geom.T {
-						case gpkgh.TPolygon:
-							if len(row.Geom.L) > 0 && len(row.Geom.L[0]) > 0 {
-								byFirst[row.Geom.L[0][0]] = [2]int{i, 0}
-							}
-						case gpkgh.TMultiPolygon:
-							for pi, p := range row.Geom.M {
-								if len(p) > 0 && len(p[0]) > 0 {
-									byFirst[p[0][0]] = [2]int{i, pi}
-								}
-							}
+				case gpkgh.TMultiPolygon:
+					for pi, p := range row.Geom.M {
+						if len(p) > 0 && len(p[0]) > 0 {
+							byFirst[p[0][0]] = [2]int{i, pi}
 						}
 					}
-					processing.ProcessFeatures(&simSource{feats: feats}, pt, func(p geom.Polygon, tmIDs []int) map[int][]geom.Polygon {
-						out := map[int][]geom.Polygon{}
-						if len(p) == 0 || len(p[0]) == 0 {
-							return out
-						}
-						k, ok := byFirst[p[0][0]]
-						if !ok {
-							return out
-						}
-						for _, tm := range tmIDs {
-							if keepFor(k[0]+k[1], tm) {
-								out[tm] = []geom.Polygon{shifted(p, tm)}
-							}
-						}
-						return out
-					})
 				}
-				for _, id := range ids {
-					targets[id].Close()
+			}
+			processing.ProcessFeatures(&simSource{feats: feats}, pt, func(p geom.Polygon, tmIDs []int) map[int][]geom.Polygon {
+				out := map[int][]geom.Polygon{}
+				if len(p) == 0 || len(p[0]) == 0 {
+					return out
 				}
+				k, ok := byFirst[p[0][0]]
+				if !ok {
+					return out
+				}
+				for _, tm := range tmIDs {
+					if keepFor(k[0]+k[1], tm) {
+						out[tm] = []geom.Polygon{shifted(p, tm)}
+					}
+				}
+				return out
 			})
-		})
-	}()
+		}
+		for _, id := range ids {
+			targets[id].Close()
+		}
+	}, func(stacks string) {
+		if onFatal != nil {
+			onFatal(&simh.Violation{Class: "writer/goroutine-leak", Message: stacks})
+		}
+	})
 	simrt.SetMapOrder(simrt.MapNative, 0)
 	switch {
 	case rr.sim.Outcome == "deadlock":
@@ -555,19 +580,22 @@ func runOne(t *testing.T, w *gwork, fp simrt.FaultPlan, mp simrt.MapPolicy, mapS
 	if c > 0 && c%w.PageSize == 0 {
 		p.Inc("final-flush-empty")
 	}
-	emptyFirst, allEmptyPage := false, false
+	emptyFirst, allEmptyPage, nullSeen := false, false, false
 	for i := 0; i < c; i += w.PageSize {
 		hi := i + w.PageSize
 		if hi > c {
 			hi = c
 		}
-		if w.Table.Rows[i].Geom.Empty() {
+		if g := w.Table.Rows[i].Geom; g != nil && g.Empty() {
 			emptyFirst = true
 		}
 		all := true
 		for _, r := range w.Table.Rows[i:hi] {
-			if !r.Geom.Empty() {
+			if r.Geom == nil || !r.Geom.Empty() {
 				all = false
+			}
+			if r.Geom == nil {
+				nullSeen = true
 			}
 		}
 		if all {
@@ -579,6 +607,9 @@ func runOne(t *testing.T, w *gwork, fp simrt.FaultPlan, mp simrt.MapPolicy, mapS
 	}
 	if allEmptyPage {
 		p.Inc("page-of-only-empty-geometries")
+	}
+	if nullSeen {
+		p.Inc("feature-without-geometry(NULL)")
 	}
 	if pipeline && len(ids) > 1 {
 		p.Inc("several-writers-flushing-concurrently")
@@ -622,6 +653,12 @@ func TestVerifGpkgsim(t *testing.T) {
 					ShrinkArrays: []string{"workload.table.rows", "workload.targets"}, ShrinkInts: []string{"workload.page_size"}}
 			})
 			tapeSink = sink
+			onFatal = func(v *simh.Violation) {
+				rf := replayFile{Property: job.Property, Engine: "gpkgsim", Seed: seed, Workload: w, Faults: fp, MapPolicy: mp.String(), MapSeed: mapSeed,
+					Violation: v, ShrinkArrays: []string{"workload.table.rows", "workload.targets"}, ShrinkInts: []string{"workload.page_size"}}
+				out.Line(map[string]interface{}{"t": "violation", "seed": seed, "replay": rf})
+				os.Exit(0)
+			}
 			wantSample := len(sum.Samples) < job.Samples && len(w.Table.Rows) >= 2 && len(w.Table.Rows) <= 5
 			rr := runOne(t, &w, fp, mp, mapSeed, seed, nil, false, wantSample || job.Mode == "selftest", filepath.Join(job.Scratch, "run"))
 			sum.Runs++
@@ -670,6 +707,11 @@ func TestVerifGpkgsim(t *testing.T) {
 			mp, _ := simrt.ParseMapPolicy(rf.MapPolicy)
 			class, msg := "", ""
 			var trace []string
+			ci := i
+			onFatal = func(v *simh.Violation) {
+				out.Line(map[string]interface{}{"t": "cand", "cand": ci, "class": v.Class, "message": v.Message})
+				os.Exit(0)
+			}
 			if rf.Workload.PageSize >= 1 && (rf.Workload.Mode != "pipeline" || len(rf.Workload.Targets) > 0) {
 				rr := runOne(t, &rf.Workload, rf.Faults, mp, rf.MapSeed, rf.Seed, rf.Tape, true, true, filepath.Join(job.Scratch, "cand"))
 				if rr.violation != nil {
